@@ -888,6 +888,18 @@ def _ordered_dict(ip, *a, **k):
   return dict(*a, **k)
 
 
+@model("tf.keras.models.Model", "tf.keras.Model")
+def _keras_model(ip, *a, **k):
+  """tf.keras Model(inputs=..., outputs=...): a record of its arguments (the functional-API constructor as far as the
+  graph-rewriting utilities use it)."""
+  attrs = dict(k)
+  if a:
+    attrs.setdefault("inputs", a[0])
+  if len(a) > 1:
+    attrs.setdefault("outputs", a[1])
+  return Obj(ExtClass("Model"), attrs)
+
+
 @model("collections.namedtuple")
 def _namedtuple(ip, typename, field_names, **k):
   """collections.namedtuple: a constructor of records with the given field names (attribute access; positional and
@@ -1723,6 +1735,13 @@ def _tf_concat(ip, vals, axis=0):
     return out
   if any(isinstance(v, Term) for v in vals):
     return Term("concat", tuple(vals), {"axis": axis})
+  if len(vals) >= 1 and all(v is vals[0] for v in vals) and isinstance(vals[0], SNum) and not is_sym(axis):
+    # the same tensor tiled n times: the generic element is unchanged, the extent of the axis grows n-fold
+    sh = shape_of(vals[0])
+    if sh is not None and -len(sh) <= int(axis) < len(sh):
+      sh = list(sh)
+      sh[int(axis)] = sh[int(axis)] * len(vals) if not is_sym(sh[int(axis)]) else sh[int(axis)]
+      return with_shape(vals[0], tuple(sh))
   if all(isinstance(v, SNum) for v in vals) and getattr(ip, "generic_indexes", None):
     # generic-element arrays: the element under consideration lies in exactly one of the pieces (path split)
     parts = getattr(ip, "concat_parts", None)
